@@ -1,6 +1,7 @@
 import QuillModel.Extracted.Backend
 import QuillModel.Props.C16
 import QuillModel.Props.C20
+import QuillModel.Props.C07Drain
 /-!
 Side-conditions of the C16 / C17 / C20 / C07-drain theorems, re-proved for the facts extracted from the current
 headers (`tools/extractors/backend.py`). If an edit to the headers changes one of the constructs the model
@@ -95,5 +96,21 @@ theorem C20_early_return_extracted (s0 : BSt) (h0 : CtxFresh s0) (ops : List Op)
   apply C20_early_return_iff s0 h0 ops
   rw [hb]
   exact Nat.lt_of_lt_of_le hn (Nat.pow_le_pow_right (by decide) invalid_counter_wide)
+
+/-! ### C07 (drain part) -/
+
+/-- `_exit` has the shape `exitLoop` mirrors: loop until the emptiness check says yes, then report the failure
+    counters, flush the sinks and leave the loop; the batch loop inside is guarded by the pending check; contexts
+    and loggers are reclaimed after the loop -/
+theorem c07_structure : Extracted.exitDrainShape = true ∧ Extracted.batchGuardInExit = true := by decide
+
+/-- instance of the drain theorem (its only side-condition on the configuration is a positive header size, part of
+    `DrainFresh`) -/
+theorem C07_exit_drains_extracted (s0 : BSt) (h0 : DrainFresh s0) (ops : List Op)
+    (hg : (runOps s0 ops).backendGone = false)
+    (he : PC.exitEnds (runInj []) 1000 100000 { runOps s0 ops with siteCnt := [] }) :
+    ∀ i, i < (applyOp (runOps s0 ops) .exit).1.ths.length →
+      ((applyOp (runOps s0 ops) .exit).1.th i).accepted = ((applyOp (runOps s0 ops) .exit).1.th i).popped :=
+  fun i hi => ((C07_exit_drains s0 h0 ops hg he).1 i hi).2.2
 
 end Obligations.BackendC
